@@ -6,7 +6,8 @@ Executable model of the scalar views of the Emboss C++ runtime:
 `FloatView` (`emboss_prelude.h`) and `EnumView` (`emboss_enum_view.h`).
 
 The model mirrors what the code does, quirks included (e.g. `EnumView::Read` is a plain
-`static_cast`, which zero-extends a field narrower than the enum's underlying type).
+`static_cast`, which zero-extends a field narrower than the enum's underlying type, and
+`EnumView::CouldWriteValue` compares the *unsigned* image of the value with `2^kBits`).
 
 Shared module (owner: C02/C03).  Imports only `Emboss.Model.Bits`.
 -/
@@ -103,12 +104,12 @@ namespace BitBlock
 /-- `LeastWidthInteger<c>::Unsigned`. -/
 def W (b : BitBlock) : Nat := leastWidth b.c
 
-/-- `buffer_.Ok() && buffer_.SizeInBytes() * 8 == kBufferSizeInBits`; `NullByteOrderer`
-reports `SizeInBytes() == 1` for every non-null buffer. -/
+/-- `buffer_.Ok() && buffer_.SizeInBytes() * 8 == kBufferSizeInBits`.  Every byte orderer
+forwards `SizeInBytes()` to the underlying buffer (`NullByteOrderer` too, since the repair
+`fix: … one-byte field without byte order report its real storage size`; before it
+answered 1 for every non-null buffer). -/
 def ok (b : BitBlock) : Bool :=
-  match b.order with
-  | .null => b.c == 8
-  | _ => b.bytes.length * 8 == b.c
+  b.bytes.length * 8 == b.c
 
 /-- `ReadUInt()`.  `none`: `EMBOSS_CHECK_EQ(SizeInBytes() * 8, kBits)` of
 `ContiguousBuffer::Read…UInt` fails. -/
@@ -374,7 +375,10 @@ def couldWrite (v : View) (t : IntT) (x : Int) : Bool :=
   | .float => true
   | .enum uw signed =>
     let BW := v.buf.W
-    let bv := ofInt BW x
+    -- `ToBitViewValue(value)`: through the unsigned counterpart of the underlying type,
+    -- then to `BitViewType::ValueType` (zero-extension or truncation)
+    let bv := wrap BW (ofInt uw x)
+    -- `static_cast<ValueType>(ToBitViewValue(value))`
     let back : Int := if signed then toSigned uw bv else (wrap uw bv : Nat)
     decide (x = back) &&
       (decide (v.kBits = BW) ||
@@ -388,7 +392,7 @@ def encode (v : View) (x : Int) : Nat :=
   | .bcd => binaryToBcd v.kBits (ofInt v.VW x)
   | .flag => if x ≠ 0 then 1 else 0
   | .float => ofInt v.kBits x
-  | .enum _ _ => ofInt v.buf.W x
+  | .enum uw _ => wrap v.buf.W (ofInt uw x)
 
 /-- Result of `TryToWrite`. -/
 inductive WriteResult
@@ -407,5 +411,36 @@ def tryToWrite (v : View) (t : IntT) (x : Int) : WriteResult :=
     | some b' => .written { v with buf := b' }
 
 end View
+
+/-! ### A field inside the structure's backing store -/
+
+/-- `backing_.GetOffsetStorage(p, n)` as the generated field accessor uses it: the `n` bytes
+at byte offset `p` of the structure's buffer, or no storage (a default-constructed, incomplete
+view) when the buffer is too short. -/
+def containerOf (store : List Nat) (p n : Nat) : Option (List Nat) :=
+  if p + n ≤ store.length then some ((store.drop p).take n) else none
+
+/-- The sub-buffer *aliases* bytes `[p, p + n)` of the store: the store after the container's
+bytes became `bytes'`. -/
+def storeAfter (store : List Nat) (p : Nat) (bytes' : List Nat) : List Nat :=
+  store.take p ++ bytes' ++ store.drop (p + bytes'.length)
+
+inductive StoreWrite
+  | refused
+  | checkFailed
+  | written (store' : List Nat)
+  deriving Repr, DecidableEq
+
+/-- `structure_view.field().TryToWrite(x)` for a field whose `c`-bit container sits at byte
+`p` of the structure's buffer `store`. -/
+def storeTryToWrite (store : List Nat) (p : Nat) (order : ByteOrder) (path : Path) (c : Nat)
+    (ty : Ty) (direct : Bool) (o w : Nat) (t : IntT) (x : Int) : StoreWrite :=
+  match containerOf store p (c / 8) with
+  | none => .refused
+  | some bytes =>
+    match (fieldView ty direct { order := order, path := path, c := c, bytes := bytes } o w).tryToWrite t x with
+    | .refused => .refused
+    | .checkFailed => .checkFailed
+    | .written v' => .written (storeAfter store p v'.buf.bytes)
 
 end Emboss.Scalar
